@@ -63,10 +63,15 @@ def escape_shape(facts, b, g, scope):
 def radix_site(a):
     """alternative `take_while(range, digits).map(|s| T::from_str_radix(s, R).unwrap()).map(Ctor)` -> dict or None"""
     n = unwrap(a.head)
+    pre = []
+    while n["t"] == "trymap":
+        # `.try_map(|s| T::from_str_radix(s, R))`: the same conversion, its (impossible) failure handed on instead of unwrapped
+        pre.insert(0, n["f"])
+        n = unwrap(n["p"])
     if n["t"] != "set":
         return None
-    info = {"set": n, "radix": None, "ty": None, "ctor": None, "unwrap": False}
-    for f in a.maps:
+    info = {"set": n, "radix": None, "ty": None, "ctor": None, "unwrap": False, "pre": pre}
+    for f in pre + list(a.maps):
         if f["k"] == "closure":
             calls = F.find_all(f["body"], lambda x: x.get("k") == "call" and x["f"]["k"] == "path" and x["f"]["segs"][-1] == "from_str_radix")
             if calls:
@@ -156,15 +161,21 @@ def run(c, facts, tier):
             want_v = "FormatSpecial::" + spec["octal"]["variant"]
             bad_, n_ = [], 0
             try:
-                fvs = [pr.ev(f_, {}) for f_ in a.maps]
+                fvs = [("try", pr.ev(f_, {})) for f_ in (r.get("pre") or [])] + [("map", pr.ev(f_, {})) for f_ in a.maps]
                 for k_ in range(max(st["min"], 1), st["max"] + 1):
                     for tup in itertools.product(sorted(st["cs"][1]), repeat=k_):
                         x_ = "".join(tup)
                         n_ += 1
                         v_ = x_
                         try:
-                            for fv in fvs:
+                            for how_, fv in fvs:
                                 v_ = pr.apply(fv, [v_])
+                                if how_ == "try":
+                                    if isinstance(v_, tuple) and len(v_) == 2 and v_[0] in ("ok", "some"):
+                                        v_ = v_[1]
+                                    else:
+                                        v_ = "refused (%r)" % (v_,)
+                                        break
                         except P.Panic as ex:
                             v_ = "panic (%s)" % ex
                         ref = ("enum", want_v, [int(x_, 8)]) if all(ch in "01234567" for ch in x_) else None
